@@ -924,7 +924,7 @@ func (g *Gen) binop(x *ssa.BinOp) string {
 	case token.LSS, token.LEQ, token.GTR, token.GEQ:
 		op := map[token.Token]string{token.LSS: "<", token.LEQ: "<=", token.GTR: ">", token.GEQ: ">="}[x.Op]
 		if a.Sort == "Str" {
-			g.declFun("strcmp", "(Str Str) Int")
+			// strcmp: Go's string order, declared (with its order axioms) in deps/strings.spec, pruned from queries that do not use it
 			return fmt.Sprintf("(%s (strcmp %s %s) 0)", op, a.S, b.S)
 		}
 		return fmt.Sprintf("(%s %s %s)", op, a.S, b.S)
@@ -1236,6 +1236,15 @@ func halfOf(w string) string {
 
 func (g *Gen) makeInterface(x *ssa.MakeInterface) {
 	xt := g.term(x.X)
+	if _, isTP := x.X.Type().(*types.TypeParam); isTP {
+		// a value of a type PARAMETER: its dynamic type is whatever the instantiation supplies - unknown here.
+		// (Giving it the tag of the parameter itself made every `case T:` of a type switch over any(v) unreachable
+		// and the code behind it verify vacuously - reported by a contract agent.)
+		t := g.define(x, "")
+		g.assume(fmt.Sprintf("(not (= %s 0))", t.S))
+		g.note("value of a type parameter boxed into an interface: dynamic type unconstrained, payload not modelled")
+		return
+	}
 	tag := g.P.typeID(x.X.Type())
 	switch xt.Sort {
 	case "Int":
